@@ -1469,8 +1469,24 @@ def run(repo=None):
     return True, hashlib.sha1((text + ptext + stext).encode()).hexdigest()[:12]
 
 
+def stats():
+    """what the three generated files contain (evidence)"""
+    out = {}
+    for f in (OUT, OUT_PROC, OUT_SEL):
+        if f.exists():
+            t = f.read_text()
+            out[f.name] = {"definitions": len(re.findall(r"(?m)^def ", t)), "loops": len(re.findall(r"(?m)^def \w+_loop\d+ ", t)),
+                           "blocks": len(re.findall(r"(?m)^def \w+_b\d+ ", t)), "lines": t.count("\n")}
+    return out
+
+
 def gen(ctx):
     ok, msg = run()
+    ctx.cov["translation"] = {"ok": ok, "sha1_or_reason": msg, "files": stats(),
+                              "functions": ["Arguments::Arguments", "Arguments::nextChar", "Arguments::read", "Private::splitCommandLine",
+                                            "Process::Process", "Process::~Process", "isRunning", "kill", "join(uint32&)", "join()",
+                                            "close(uint)", "exit", "read(buffer, len)", "write", "setEnvironmentVariable",
+                                            "read(buffer, length, streams)"]}
     if ok:
         ctx.notes.append(f"translator: Nstd/Generated/ArgsCode.lean, ArgsProc.lean and ArgsSel.lean regenerated from the current Process.cpp / Process.hpp (sha1 {msg})")
     return ok, msg
